@@ -11,6 +11,7 @@
 //! `VIOLATION property=<id> replay=<path>` is printed); 2 harness error.
 
 mod c10;
+mod c12;
 mod core;
 mod orchestrate;
 mod refad;
